@@ -14,10 +14,15 @@
 EXTENDS Naturals, Integers, Sequences, FiniteSets, TLC, Json, IOUtils
 CONSTANTS Export, MaxOps, GuardRelease, Limits
 
-VARIABLES lim, tmp, now, live, n, hist, unl
-vars == <<lim, tmp, now, live, n, hist, unl>>
-view == <<lim, tmp, now, live, n, unl>>
-Init == lim \in Limits /\ tmp = 0 /\ now = 0 /\ live = 0 /\ n = 0 /\ unl = 0 /\ hist = <<[op |-> "limit", k |-> lim, admitted |-> 0, live |-> 0]>>
+\* ghost: what has happened so far that a limiter with the wrong bookkeeping would remember although the
+\* correct one does not (rejections, sessions without a slot that ended under a limit).  It changes no
+\* behaviour of this model; it is part of the VIEW so that one scenario is exported per (state, past) pair
+\* and history-dependent deviations of the code are reached, not only state-dependent ones.
+VARIABLES lim, tmp, now, live, n, hist, unl, ghost
+vars == <<lim, tmp, now, live, n, hist, unl, ghost>>
+view == <<lim, tmp, now, live, n, unl, ghost>>
+Cap2(x) == IF x > 2 THEN 2 ELSE x
+Init == lim \in Limits /\ tmp = 0 /\ now = 0 /\ live = 0 /\ n = 0 /\ unl = 0 /\ ghost = [rej |-> 0, unlended |-> 0] /\ hist = <<[op |-> "limit", k |-> lim, admitted |-> 0, live |-> 0]>>
 
 Rec(op, k, adm) == n < MaxOps /\ n' = n + 1 /\ hist' = Append(hist, [op |-> op, k |-> k, admitted |-> adm, live |-> live'])
 
@@ -30,6 +35,7 @@ ConnectEffect(t, nw) ==
   ELSE IF GuardRelease THEN <<t, nw, 0>> ELSE <<t - 1, nw - 1, 0>>      \* rejected (and, unrepaired, a slot released)
 Connect == LET r == ConnectEffect(tmp, now) IN
            /\ tmp' = r[1] /\ now' = r[2] /\ live' = live + r[3] /\ unl' = (IF lim = 0 THEN unl + r[3] ELSE unl) /\ UNCHANGED lim /\ Rec("connect", 1, r[3])
+           /\ ghost' = [ghost EXCEPT !.rej = Cap2(@ + 1 - r[3])]
 Burst(k) == \* k connects one after the other (the code's atomics serialise them)
            LET r1 == ConnectEffect(tmp, now)
                r2 == ConnectEffect(r1[1], r1[2])
@@ -37,13 +43,15 @@ Burst(k) == \* k connects one after the other (the code's atomics serialise them
                adm == r1[3] + r2[3] + (IF k = 3 THEN r3[3] ELSE 0)
                fin == IF k = 3 THEN r3 ELSE r2
            IN /\ lim # 0 /\ tmp' = fin[1] /\ now' = fin[2] /\ live' = live + adm /\ UNCHANGED <<lim, unl>> /\ Rec("burst", k, adm)
+              /\ ghost' = [ghost EXCEPT !.rej = Cap2(@ + k - adm)]
 \* sessions end oldest first; one admitted without a limiter holds no slot and releases none
 End(kind) == /\ live > 0 /\ live' = live - 1
              /\ IF unl > 0 THEN unl' = unl - 1 /\ UNCHANGED <<tmp, now>>
-                           ELSE tmp' = tmp - 1 /\ now' = now - 1 /\ UNCHANGED unl
+                                 /\ ghost' = [ghost EXCEPT !.unlended = IF lim > 0 THEN Cap2(@ + 1) ELSE @]
+                           ELSE tmp' = tmp - 1 /\ now' = now - 1 /\ UNCHANGED <<unl, ghost>>
              /\ UNCHANGED lim /\ Rec(kind, 1, 0)
-Raise == /\ lim > 0 /\ lim < 3 /\ lim' = lim + 1 /\ UNCHANGED <<tmp, now, live, unl>> /\ Rec("raise", lim + 1, 0)
-SetLimit(k) == /\ lim = 0 /\ lim' = k /\ UNCHANGED <<tmp, now, live, unl>> /\ Rec("raise", k, 0)
+Raise == /\ lim > 0 /\ lim < 3 /\ lim' = lim + 1 /\ UNCHANGED <<tmp, now, live, unl, ghost>> /\ Rec("raise", lim + 1, 0)
+SetLimit(k) == /\ lim = 0 /\ lim' = k /\ UNCHANGED <<tmp, now, live, unl, ghost>> /\ Rec("raise", k, 0)
 Next == Connect \/ Burst(2) \/ Burst(3) \/ End("disc") \/ End("close") \/ Raise \/ SetLimit(1) \/ SetLimit(2)
 Spec == Init /\ [][Next]_vars
 
